@@ -123,8 +123,12 @@ def generate(textx):
             while arguments:
                 m = arguments.pop(0)
                 if m.startswith("--"):
-                    arg_name = m[2:].replace("-", "_")
-                    if not arguments or arguments[0].startswith("--"):
+                    arg_name, equals, arg_value = m[2:].partition("=")
+                    arg_name = arg_name.replace("-", "_")
+                    if equals:
+                        # --name=value
+                        custom_args[arg_name] = arg_value.strip("\"'")
+                    elif not arguments or arguments[0].startswith("--"):
                         # Boolean argument
                         custom_args[arg_name] = True
                     else:
